@@ -131,9 +131,8 @@ class GotranPythonCodePrinter(PythonCodePrinter):
         return f"({self._print(lhs)} == {self._print(rhs)})"
 
     def _print_sign(self, e):
-        return "(0.0 if ({e} == 0) else {f}(1, {e}))".format(
-            f=self._module_format("numpy.copysign"), e=self._print(e.args[0])
-        )
+        # A python conditional expression does not work for arrays or traced jax values
+        return "{f}({e})".format(f=self._module_format("numpy.sign"), e=self._print(e.args[0]))
 
 
 def get_formatter(format: Format) -> typing.Callable[[str], str]:
